@@ -101,6 +101,29 @@ def main():
             near.append(({"m": fl_(x * 9 / 5 + g), "u": [[None, "Rankine", 1]]}, {"m": fl_(x), "u": [[None, "kelvin", 1]]}))
             near.append(({"m": fl_((x - 273.15) * 9 / 5 + 32 + g), "u": [[None, "fahrenheit", 1]]}, {"m": fl_(x - 273.15), "u": [[None, "celsius", 1]]}))
     table({"systems": True}, near, "temperature-near", kval, tie=Fraction(1, 10**11))
+    # dimensionless units in the numerator of a rate or of a power (angular rates, solid angles): the order is the physical one
+    import math
+    PI = Fraction(math.pi)
+    exp0 = impl("export_worker.py", {})
+    ANG = {"radian": Fraction(1), "degree": PI / 180, "arcminute": PI / 10800, "gradian": PI / 200}
+    TIMES = {"second": Fraction(1), "minute": Fraction(60), "hour": Fraction(3600)}
+    def aval(q_):
+        v = Fraction(int(q_["m"][1]), int(q_["m"][2]))
+        for p_, n_, e_ in q_["u"]:
+            v *= (ANG.get(n_) or TIMES.get(n_) or Fraction(1)) ** e_ * (1000 if p_ == "kilo" else (Fraction(1, 1000) if p_ == "milli" else 1)) ** e_
+        return v
+    arate = [u_ for u_ in ([[None, "radian", 1], [None, "second", -1]], [[None, "degree", 1], [None, "second", -1]], [[None, "degree", 1], [None, "minute", -1]], [[None, "arcminute", 1], [None, "second", -1]],
+                           [["milli", "radian", 1], [None, "second", -1]], [[None, "degree", 1], [None, "hour", -1]]) if all(n_ in exp0["unit_by_name"] for _, n_, _ in u_)]
+    solid = [u_ for u_ in ([[None, "degree", 2]], [[None, "radian", 2]], [[None, "arcminute", 2]]) if all(n_ in exp0["unit_by_name"] for _, n_, _ in u_)]
+    ap = []
+    for fam_ in (arate, solid):
+        for ua in fam_:
+            for ub in fam_:
+                if ua == ub: continue
+                for x, y in ((1, 30), (30, 1), (2000, 1), (1, 1), (7, 400)):
+                    ap.append(({"m": ["int", str(x), "1"], "u": ua}, {"m": [rng.choice(["int", "float"]), str(y), "1"], "u": ub}))
+    if c.tier == "quick": ap = rng.sample(ap, min(len(ap), 70))
+    table({"systems": True}, ap, "angular", aval)
     # the same pair declared twice (from both sides), the later declaration wins in both directions
     define = [["zzq0", [[1, 1]]], ["zzq1", [[1, 1]]], ["zzq2", [[1, 1]]]]
     decls = [[[[None, "zzq0", 1]], ["float", "3", "4"], [[None, "zzq1", 1]]], [[[None, "zzq0", 1]], ["float", "1", "2"], [[None, "zzq1", 1]]],
